@@ -16,6 +16,7 @@
 //   drv_params --out F --mode list  --n N           C02 histories on lists and owning objects
 //   drv_params --out F --mode bulk  --nmax M        C02 bulk updates: offending entry at every position (exhaustive)
 #include "tracer.h"
+#include "param_audit.h"
 
 #include <Bpp/App/ApplicationTools.h>
 #include <Bpp/Exceptions.h>
@@ -1225,6 +1226,7 @@ static void modeCross(World& w, long K)
 
 int main(int argc, char** argv)
 {
+  vt::installParamAudit(); // C01: audit of every Parameter of the process when VERIF_PARAM_AUDIT=<file> is set
   std::string out = argStr(argc, argv, "--out", "");
   std::string mode = argStr(argc, argv, "--mode", "param");
   long n = argInt(argc, argv, "--n", 100);
